@@ -152,26 +152,31 @@ def read_repo(rel):
 
 
 def find_item(rel, path):
-    """path like 'impl Timer > fn run_cycles' | 'struct Timer' | 'fn memory_read_byte'."""
+    """path like 'impl Timer > fn run_cycles' | 'struct Timer' | 'fn memory_read_byte'.  Several items can share a
+    header (e.g. two `impl X` blocks): every candidate is tried; items guarded by cfg(gb_dynarec_verif) / cfg(test) are skipped."""
     src, masked = read_repo(rel)
-    lo, hi = 0, len(src)
-    item = None
-    for part in path.split('>'):
-        part = part.strip()
-        kind, name = part.split(' ', 1)
+    parts = [p.strip() for p in path.split('>')]
+
+    def search(k, lo, hi):
+        kind, name = parts[k].split(' ', 1)
         name = name.strip()
-        found = None
         for it in items_in(src, masked, lo, hi):
-            if it.kind == kind and it.name == name:
-                # skip #[cfg(test)] items
-                found = it
-                break
-        if not found:
-            raise ExtractError("lost anchor: %s :: %s (looking for '%s')" % (rel, path, part))
-        item = found
-        if found.body_open is not None:
-            lo, hi = found.body_open + 1, found.end - 1
-    return item
+            if it.kind != kind or it.name != name:
+                continue
+            head = src[it.start:it.body_open if it.body_open is not None else it.end]
+            if re.search(r'#\[cfg\((?:gb_dynarec_verif|test)\)\]', head):
+                continue
+            if k == len(parts) - 1:
+                return it
+            if it.body_open is not None:
+                r = search(k + 1, it.body_open + 1, it.end - 1)
+                if r is not None:
+                    return r
+        return None
+    found = search(0, 0, len(src))
+    if found is None:
+        raise ExtractError("lost anchor: %s :: %s" % (rel, path))
+    return found
 
 
 # ---------------------------------------------------------------- rewrite rules
